@@ -8,6 +8,7 @@ import (
 	"log"
 	"net"
 	"net/http"
+	"strconv"
 	"strings"
 	"sync"
 	"testing"
@@ -202,15 +203,26 @@ func maxInt(a, b int) int {
 	return b
 }
 
+// aeOffersGzip is the reference reading of Accept-Encoding (RFC 9110 12.4.2 / 12.5.3): the
+// header lists gzip if one of its members names the coding gzip (case-insensitive) with a
+// weight other than zero. The weight parameter is "q" in either case, optional whitespace
+// around ";" and "="; a weight of 0, 0.0, 0.00 or 0.000 means "not acceptable".
 func aeOffersGzip(ae string) bool {
 	for _, part := range strings.Split(ae, ",") {
-		tok := strings.TrimSpace(part)
-		q := ""
-		if i := strings.Index(tok, ";"); i >= 0 {
-			q = strings.ReplaceAll(strings.TrimSpace(tok[i+1:]), " ", "")
-			tok = strings.TrimSpace(tok[:i])
+		params := strings.Split(part, ";")
+		if !strings.EqualFold(strings.TrimSpace(params[0]), "gzip") {
+			continue
 		}
-		if strings.EqualFold(tok, "gzip") && q != "q=0" && q != "q=0.0" {
+		refused := false
+		for _, prm := range params[1:] {
+			kv := strings.SplitN(prm, "=", 2)
+			if len(kv) == 2 && strings.EqualFold(strings.TrimSpace(kv[0]), "q") {
+				if v, err := strconv.ParseFloat(strings.TrimSpace(kv[1]), 64); err == nil && v == 0 {
+					refused = true
+				}
+			}
+		}
+		if !refused {
 			return true
 		}
 	}
@@ -313,7 +325,9 @@ func c15Judge(c c15Case, with, without wire.Response, plain []byte, pre bool) (s
 	return "", ""
 }
 
-var c15AEs = []string{"-", "gzip", "gzip, br", "br,gzip", "GZIP", "gzip;q=0", "gzip;q=1", "identity", "*", "x-gzip", " gzip "}
+var c15AEs = []string{"-", "gzip", "gzip, br", "br,gzip", "GZIP", "gzip;q=0", "gzip;q=1", "identity", "*", "x-gzip", " gzip ",
+	// weights in every legal spelling: the parameter name in either case, optional whitespace, up to three decimals
+	"gzip;Q=0", "gzip; q=0", "gzip ; q = 0", "gzip;q=0.000", "identity, gzip;Q=0.000", "GZIP ; Q=0", "gzip;q=0.5", "gzip;q=0.001", "br;q=1, gzip;q=0", "gzip;q=0, br", "deflate, gzip;q=0.0;x=1", "gzipx", "notgzip, identity"}
 var c15Types = []string{"text/html", "application/json; charset=utf-8", "image/png", ""}
 
 func c15Cases(th bool) []c15Case {
